@@ -305,6 +305,9 @@ def _check_main(ctx, rep: Report):
 def check(ctx, rep):
     from . import metarules, shared
     _check_main(ctx, rep)
+    from . import metarules, r5rules
+    r5rules.build_attr_spec_rules(ctx, rep, "C02.META", ("dnc",))
+    r5rules.invalidate_no_force(ctx, rep, "C02.INV")
     metarules.attr_spec_writers(ctx, rep, "C02.SPEC")
     metarules.deepcopy_memo(ctx, rep, "C02.DC")
     metarules.for_class_rule(ctx, rep, "C02.META", ("dnc",))
